@@ -15,6 +15,12 @@
 (* _world_size, effective_total, epoch as computed by __init__), iterators *)
 (* as cursor machines (islice(order, rank, effective_total, world)) that   *)
 (* may be interleaved across ranks, __len__ by the code's formula.         *)
+(* One sampler object may have SEVERAL iterators alive at once (slots      *)
+(* `it[r][h]`): iter(sampler) / get_samples_for_epoch(e) while an earlier   *)
+(* iterator of the same object is only partially consumed (a progress bar  *)
+(* asking len() of a bucketed loader mid-epoch, two epochs zipped, a       *)
+(* prefetching consumer).  Every iterator is bound to the (seed, epoch) it *)
+(* was created for; their Yield steps interleave freely.                   *)
 (* Declarative part: the invariants below, on the log of completed epochs: *)
 (* disjointness, exact cover, equal shares when dropping, len = number     *)
 (* yielded, refusal exactly for indivisible sizes under "raise", "ignore"  *)
@@ -32,13 +38,19 @@ CONSTANTS MaxN,        \* data-set sizes 0..MaxN
           MaxEpoch,    \* epochs 0..MaxEpoch are iterated
           MaxOps,      \* bound on the number of operations of a behaviour
           Schedule,    \* "free": iterators of different ranks interleave; "serial": one live
-                       \* iterator at a time; "ordered": serial and ranks act in rank order
-          Features     \* subset of {"reconstruct", "get", "full"}: operations beyond construct/iterate
+                       \* iterator at a time; "ordered": serial and ranks act in rank order;
+                       \* "perrank": the iterators of one rank interleave, one rank at a time
+          Features     \* subset of {"reconstruct", "get", "full", "abandon", "live2", "live3"}: operations
+                       \* beyond construct/iterate; "live2" / "live3": up to 2 / 3 iterators of ONE sampler
+                       \* object alive at the same time (otherwise one); "sharedbuf": the REJECTED design
+                       \* in which the iterators of an object read one buffer that every request for an
+                       \* order refills (cfg Sampler_sharedbuf*: TLC must refute it as soon as two
+                       \* iterators are alive, and cannot tell it apart when there is one at a time)
 
 VARIABLES N, W, mode, kind,
           perm,      \* [Seeds \X (0..MaxEpoch) -> partial function 0..N-1 -> 0..N-1], injective
           smp,       \* per rank: sampler object state (alive = FALSE: none yet)
-          it,        \* per rank: the live iterator, if any
+          it,        \* per rank, per slot: a live iterator, if any
           refused,   \* ranks whose constructor raised
           log,       \* completed iterations: [rank, seed, epoch, full, items, len]
           ops        \* history of operations (exported as a driver skeleton; hidden by VIEW)
@@ -47,8 +59,14 @@ View == <<N, W, mode, kind, perm, smp, it, refused, log>>
 
 Ranks == 0..(W - 1)
 Keys == Seeds \X (0..MaxEpoch)
-NoSmp == [alive |-> FALSE, seed |-> 0, epoch |-> 0, rank |-> 0, world |-> 1, eff |-> 0]
-NoIt == [on |-> FALSE, seed |-> 0, epoch |-> 0, pos |-> 0, stop |-> 0, step |-> 1, full |-> FALSE, out |-> <<>>]
+NoSmp == [alive |-> FALSE, seed |-> 0, epoch |-> 0, rank |-> 0, world |-> 1, eff |-> 0, last |-> <<0, 0>>]
+\* "sharedbuf" only: the (seed, epoch) whose order the object's one buffer holds = the last one requested
+SharedBuf == "sharedbuf" \in Features
+Requested(r, e) == IF SharedBuf THEN <<smp[r].seed, e>> ELSE <<0, 0>>
+\* iterator slots of one sampler object (handles the consumer holds)
+Slots == 0..(IF "live3" \in Features THEN 2 ELSE IF "live2" \in Features THEN 1 ELSE 0)
+NoIt1 == [on |-> FALSE, seed |-> 0, epoch |-> 0, pos |-> 0, stop |-> 0, step |-> 1, full |-> FALSE, out |-> <<>>]
+NoIt == [h \in Slots |-> NoIt1]
 
 (***************************************************************************)
 (* Declarative vocabulary (from the documentation of on_uneven_distributed)*)
@@ -75,18 +93,25 @@ Bind(k, p, x) == IF p \in Bound(k) THEN perm ELSE [perm EXCEPT ![k] = (p :> x) @
 (***************************************************************************)
 (* Code-shaped actions                                                     *)
 (***************************************************************************)
-Op(name, r, a, b) == [op |-> name, rank |-> r, a |-> a, b |-> b]
+OpH(name, r, h, a, b) == [op |-> name, rank |-> r, h |-> h, a |-> a, b |-> b]
+Op(name, r, a, b) == OpH(name, r, 0, a, b)
 
+AnyLive(q) == \E h \in Slots : it[q][h].on
+\* a new iterator takes the lowest free slot (slot numbers carry no meaning: fewer symmetric states)
+LowestFree(r, h) == /\ ~it[r][h].on
+                    /\ \A g \in Slots : g < h => it[r][g].on
 \* scheduling restrictions of the exhaustive configurations (none under "free")
-Busy == \E q \in Ranks : it[q].on
+Busy == \E q \in Ranks : AnyLive(q)
 Finished(q) == q \in refused \/ \E l \in log : l.rank = q /\ ~l.full
 MayStart(r) == \/ Schedule = "free"
                \/ Schedule = "serial" /\ ~Busy
                \/ Schedule = "ordered" /\ ~Busy /\ \A q \in 0..(r - 1) : Finished(q)
+               \/ Schedule = "perrank" /\ \A q \in Ranks \ {r} : ~AnyLive(q)  \* one rank at a time,
+                                                                              \* its iterators interleave
 
 \* AbstractEpochSampler.__init__ (under a process group in which this process is rank r of W)
 Construct(r, s, e0) ==
-  /\ ~it[r].on /\ MayStart(r)
+  /\ ~AnyLive(r) /\ MayStart(r)
   /\ ("reconstruct" \in Features \/ (~smp[r].alive /\ r \notin refused))
   /\ LET dist == mode # "ignore"              \* "ignore" skips the distributed branch altogether
          rk == IF dist THEN r ELSE 0
@@ -97,7 +122,8 @@ Construct(r, s, e0) ==
              /\ ops' = Append(ops, Op("construct", r, s, e0))
         ELSE /\ smp' = [smp EXCEPT ![r] =
                    [alive |-> TRUE, seed |-> s, epoch |-> e0, rank |-> rk, world |-> ws,
-                    eff |-> IF dist /\ N % ws # 0 /\ mode = "drop" THEN N - (N % ws) ELSE N]]
+                    eff |-> IF dist /\ N % ws # 0 /\ mode = "drop" THEN N - (N % ws) ELSE N,
+                    last |-> <<0, 0>>]]
              /\ ops' = Append(ops, Op("construct", r, s, e0))
              /\ UNCHANGED refused
   /\ UNCHANGED <<N, W, mode, kind, perm, it, log>>
@@ -106,58 +132,68 @@ Construct(r, s, e0) ==
 LenCode(r) == (smp[r].eff - smp[r].rank + smp[r].world - 1) \div smp[r].world
 
 \* __iter__: the iterator of the current epoch; the epoch counter moves on at once
-BeginIter(r) ==
-  /\ smp[r].alive /\ ~it[r].on /\ smp[r].epoch <= MaxEpoch /\ MayStart(r)
-  /\ it' = [it EXCEPT ![r] = [on |-> TRUE, seed |-> smp[r].seed, epoch |-> smp[r].epoch,
-                              pos |-> smp[r].rank, stop |-> smp[r].eff, step |-> smp[r].world,
-                              full |-> FALSE, out |-> <<>>]]
-  /\ smp' = [smp EXCEPT ![r].epoch = @ + 1]
-  /\ ops' = Append(ops, Op("iter", r, smp[r].epoch, 0))
+BeginIterAt(r, h) ==
+  /\ smp[r].alive /\ LowestFree(r, h) /\ smp[r].epoch <= MaxEpoch /\ MayStart(r)
+  /\ it' = [it EXCEPT ![r][h] = [on |-> TRUE, seed |-> smp[r].seed, epoch |-> smp[r].epoch,
+                                 pos |-> smp[r].rank, stop |-> smp[r].eff, step |-> smp[r].world,
+                                 full |-> FALSE, out |-> <<>>]]
+  /\ smp' = [smp EXCEPT ![r].epoch = @ + 1, ![r].last = Requested(r, smp[r].epoch)]
+  /\ ops' = Append(ops, OpH("iter", r, h, smp[r].epoch, 0))
   /\ UNCHANGED <<N, W, mode, kind, perm, refused, log>>
+BeginIter(r) == \E h \in Slots : BeginIterAt(r, h)
 
 \* get_samples_for_epoch(e): same slice, the counter stays
-BeginGet(r, e) ==
-  /\ "get" \in Features /\ smp[r].alive /\ ~it[r].on /\ MayStart(r)
-  /\ it' = [it EXCEPT ![r] = [on |-> TRUE, seed |-> smp[r].seed, epoch |-> e,
-                              pos |-> smp[r].rank, stop |-> smp[r].eff, step |-> smp[r].world,
-                              full |-> FALSE, out |-> <<>>]]
-  /\ ops' = Append(ops, Op("get", r, e, 0))
-  /\ UNCHANGED <<N, W, mode, kind, perm, smp, refused, log>>
+BeginGetAt(r, h, e) ==
+  /\ "get" \in Features /\ smp[r].alive /\ LowestFree(r, h) /\ MayStart(r)
+  /\ it' = [it EXCEPT ![r][h] = [on |-> TRUE, seed |-> smp[r].seed, epoch |-> e,
+                                 pos |-> smp[r].rank, stop |-> smp[r].eff, step |-> smp[r].world,
+                                 full |-> FALSE, out |-> <<>>]]
+  /\ smp' = [smp EXCEPT ![r].last = Requested(r, e)]
+  /\ ops' = Append(ops, OpH("get", r, h, e, 0))
+  /\ UNCHANGED <<N, W, mode, kind, perm, refused, log>>
+BeginGet(r, e) == \E h \in Slots : BeginGetAt(r, h, e)
 
 \* get_samples_for_epoch_ignoring_distributed(e): the whole order
-BeginFull(r, e) ==
-  /\ "full" \in Features /\ smp[r].alive /\ ~it[r].on /\ MayStart(r)
-  /\ it' = [it EXCEPT ![r] = [on |-> TRUE, seed |-> smp[r].seed, epoch |-> e,
-                              pos |-> 0, stop |-> N, step |-> 1, full |-> TRUE, out |-> <<>>]]
-  /\ ops' = Append(ops, Op("full", r, e, 0))
-  /\ UNCHANGED <<N, W, mode, kind, perm, smp, refused, log>>
+BeginFullAt(r, h, e) ==
+  /\ "full" \in Features /\ smp[r].alive /\ LowestFree(r, h) /\ MayStart(r)
+  /\ it' = [it EXCEPT ![r][h] = [on |-> TRUE, seed |-> smp[r].seed, epoch |-> e,
+                                 pos |-> 0, stop |-> N, step |-> 1, full |-> TRUE, out |-> <<>>]]
+  /\ smp' = [smp EXCEPT ![r].last = Requested(r, e)]
+  /\ ops' = Append(ops, OpH("full", r, h, e, 0))
+  /\ UNCHANGED <<N, W, mode, kind, perm, refused, log>>
+BeginFull(r, e) == \E h \in Slots : BeginFullAt(r, h, e)
 
-\* next(iterator) yields x
-Yield(r, x) ==
-  /\ it[r].on /\ it[r].pos < it[r].stop
-  /\ LET k == <<it[r].seed, it[r].epoch>>
-     IN /\ CanBind(k, it[r].pos, x)
-        /\ perm' = Bind(k, it[r].pos, x)
-  /\ it' = [it EXCEPT ![r].pos = @ + it[r].step, ![r].out = Append(@, x)]
-  /\ ops' = Append(ops, Op("yield", r, x, 0))
+\* next(iterator) yields x: the element of the order of ITS (seed, epoch) at its cursor - whatever
+\* other iterators of the same object have been created or advanced in the meantime
+YieldAt(r, h, x) ==
+  /\ it[r][h].on /\ it[r][h].pos < it[r][h].stop
+  /\ LET k == IF SharedBuf THEN smp[r].last          \* (rejected design: whatever the buffer holds now)
+              ELSE <<it[r][h].seed, it[r][h].epoch>>  \* the order of the iterator's own (seed, epoch)
+     IN /\ CanBind(k, it[r][h].pos, x)
+        /\ perm' = Bind(k, it[r][h].pos, x)
+  /\ it' = [it EXCEPT ![r][h].pos = @ + it[r][h].step, ![r][h].out = Append(@, x)]
+  /\ ops' = Append(ops, OpH("yield", r, h, x, 0))
   /\ UNCHANGED <<N, W, mode, kind, smp, refused, log>>
+Yield(r, x) == \E h \in Slots : YieldAt(r, h, x)
 
 \* next(iterator) raises StopIteration; the length the sampler reports is noted next to it
-End(r) ==
-  /\ it[r].on /\ it[r].pos >= it[r].stop
-  /\ log' = log \cup {[rank |-> r, seed |-> it[r].seed, epoch |-> it[r].epoch, full |-> it[r].full,
-                       items |-> it[r].out, len |-> LenCode(r)]}
-  /\ it' = [it EXCEPT ![r] = NoIt]
-  /\ ops' = Append(ops, Op("end", r, LenCode(r), 0))
+EndAt(r, h) ==
+  /\ it[r][h].on /\ it[r][h].pos >= it[r][h].stop
+  /\ log' = log \cup {[rank |-> r, seed |-> it[r][h].seed, epoch |-> it[r][h].epoch, full |-> it[r][h].full,
+                       items |-> it[r][h].out, len |-> LenCode(r)]}
+  /\ it' = [it EXCEPT ![r][h] = NoIt1]
+  /\ ops' = Append(ops, OpH("end", r, h, LenCode(r), 0))
   /\ UNCHANGED <<N, W, mode, kind, perm, smp, refused>>
+End(r) == \E h \in Slots : EndAt(r, h)
 
 \* the consumer drops a live iterator without exhausting it (break out of the loop, zip with a shorter
 \* iterable, islice(len)); nothing else changes: the epoch counter already moved on when it was created
-Abandon(r) ==
-  /\ "abandon" \in Features /\ it[r].on
-  /\ it' = [it EXCEPT ![r] = NoIt]
-  /\ ops' = Append(ops, Op("abandon", r, 0, 0))
+AbandonAt(r, h) ==
+  /\ "abandon" \in Features /\ it[r][h].on
+  /\ it' = [it EXCEPT ![r][h] = NoIt1]
+  /\ ops' = Append(ops, OpH("abandon", r, h, 0, 0))
   /\ UNCHANGED <<N, W, mode, kind, perm, smp, refused, log>>
+Abandon(r) == \E h \in Slots : AbandonAt(r, h)
 
 Init ==
   /\ N \in 0..MaxN /\ W \in 1..MaxW /\ mode \in ModeSet /\ kind \in KindSet
@@ -211,6 +247,21 @@ LenIsYielded ==
 \* "a function of (seed, epoch) alone": one list per (rank, seed, epoch), whatever the path
 PathIndependent ==
   \A a, b \in log : (a.rank = b.rank /\ Key(a) = Key(b) /\ a.full = b.full) => a.items = b.items
+\* the same for iterators still in flight: what an iterator has yielded so far is the prefix of the list
+\* of its (rank, seed, epoch) - it agrees with every completed iteration and with every other live
+\* iterator of that (rank, seed, epoch), of the same or of another slot, however their steps interleaved
+IsPrefix(s, t) == Len(s) <= Len(t) /\ \A j \in 1..Len(s) : s[j] = t[j]
+LiveIts == {<<r, h>> \in Ranks \X Slots : it[r][h].on}
+LivePrefixes ==
+  \A a \in LiveIts :
+     LET ia == it[a[1]][a[2]]
+     IN /\ NoDup(ia.out)
+        /\ \A l \in log : (l.rank = a[1] /\ Key(l) = <<ia.seed, ia.epoch>> /\ l.full = ia.full) =>
+              IsPrefix(ia.out, l.items)
+        /\ \A b \in LiveIts :
+              LET ib == it[b[1]][b[2]]
+              IN (a[1] = b[1] /\ ia.seed = ib.seed /\ ia.epoch = ib.epoch /\ ia.full = ib.full) =>
+                    (IsPrefix(ia.out, ib.out) \/ IsPrefix(ib.out, ia.out))
 WellFormedLists ==
   \A l \in log : NoDup(l.items) /\ Items(l) \subseteq 0..(N - 1)
 \* "pairwise disjoint"
